@@ -98,6 +98,8 @@ def main():
     work = [(s, pids) for s in seeds]
     caught = 0
     miss = 0
+    neutral = 0
+    false_alarms = 0
     with ProcessPoolExecutor(jobs) as ex:
         for seed_dir, res in ex.map(one, work):
             meta = {}
@@ -109,13 +111,18 @@ def main():
             fired = {p: r for p, r in res.items() if not p.startswith("_") and r[0] == 1}
             errs = {p: r for p, r in res.items() if not p.startswith("_") and r[0] == 2}
             own = target in fired
+            if meta.get("neutralised_by"):
+                neutral += 1
+                print("%-10s target=%s NEUTRALISED by fix %s: %s" % (os.path.relpath(seed_dir, root), target, meta["neutralised_by"], "silent (as it must be)" if not fired else "FALSE ALARM %s" % {p: r[1][:3] for p, r in fired.items()}), flush=True)
+                false_alarms += bool(fired)
+                continue
             caught += bool(fired)
             miss += (not own)
             print("%-10s target=%s base=%-8s %s  fired=%s%s" % (os.path.relpath(seed_dir, root), target, res.get("_base", "?"), "OWN " if own else ("other" if fired else "MISS"),
                   {p: [k.split("|")[0] for k in r[1][:3]] for p, r in sorted(fired.items(), key=lambda kv: kv[0] != target)}, ("  ERR=%s" % errs) if errs else ""), flush=True)
             if "_apply" in res:
                 print("    ", res["_apply"])
-    print("seeds: %d, caught by some check: %d, not caught by the OWN property's check: %d" % (len(seeds), caught, miss))
+    print("seeds: %d (of which neutralised by a later fix: %d, alarming on those: %d), caught by some check: %d, not caught by the OWN property's check: %d" % (len(seeds), neutral, false_alarms, caught, miss))
 
 
 if __name__ == "__main__":
